@@ -120,6 +120,11 @@ func ModStmts() []Stmt {
 	// free-standing comments
 	add("comment", "// lone comment\n")
 	add("comment", "// two\n// lines\n")
+	// comments that talk about directives, keyword doubled, keyword first
+	add("comment", "// The module module example.com/old was renamed\n")
+	add("comment", "// module example.com/commented-out\n")
+	add("comment", "//module\tmodule\texample.com/tabbed\n")
+	add("comment", "// require module module v1.0.0\n")
 	// a requirement on a module whose path is the word "module" (the quick path extractor scans lines)
 	add("require", "require (\n\tmodule v1.0.0\n)\n")
 	add("replace", "replace (\n\tmodule => ../x\n)\n")
